@@ -1171,7 +1171,7 @@ class PerturbedDroplet3D(PerturbedDropletBase):
         elif θ.shape != φ.shape:
             raise ValueError("Shape of θ and φ must agree")
         Yk = spherical.spherical_harmonic_real_k
-        correction = 0
+        correction = np.zeros(θ.shape)
         for k, a in enumerate(self.amplitudes, 1):  # skip zero-th mode!
             if a != 0:
                 l, _ = spherical.spherical_index_lm(k)
@@ -1265,7 +1265,7 @@ class PerturbedDroplet3DAxisSym(PerturbedDropletBase):
             Array with curvature at the interfacial points associated with the angles
         """
         Yl = spherical.spherical_harmonic_symmetric
-        correction = 0
+        correction = np.zeros(θ.shape)
         for order, a in enumerate(self.amplitudes, 1):  # skip zero-th mode!
             if a != 0:
                 hl = (order**2 + order - 2) / 2
